@@ -126,7 +126,12 @@ def merge(parts):
         m["violation_count"] += r["violation_count"]
         m["inconclusive"].extend(r["inconclusive"])
         for k, v in r.get("info", {}).items():
-            m["info"].setdefault(k, v)
+            if k == "_linecov":
+                lc = m["info"].setdefault("_linecov", {})
+                for f, ls in v.items():
+                    lc.setdefault(f, set()).update(ls)
+            else:
+                m["info"].setdefault(k, v)
     return m
 
 
@@ -205,6 +210,9 @@ def decide(mod, prop, tier, seed, m, wall, zfile, shash, nfiles, nshards):
         "inconclusive_reasons": inconclusive[:10],
     }
     coverage.update(extra)
+    linecov = m["info"].pop("_linecov", None)
+    if linecov is not None:
+        coverage["anchor_line_coverage"] = anchor_coverage(prop, linecov)
     coverage.update({k: v for k, v in m["info"].items()
                      if k not in coverage})
     ev = {
@@ -277,14 +285,50 @@ def minimise(mod, prop, v, budget=60):
         v["minimised_text"] = reduced
 
 
+def anchor_coverage(prop, linecov):
+    """Executed / executable lines of the files the property is anchored
+    in (properties.jsonl anchors.files), measured by mon.linecov."""
+    from ..mon.linecov import executable_lines
+    files = []
+    try:
+        with open(os.path.join(tree.VERIF_ROOT, "properties.jsonl")) as f:
+            for line in f:
+                d = json.loads(line)
+                if d["id"] == prop:
+                    files = d["anchors"]["files"]
+    except Exception:  # noqa
+        pass
+    out = {"note": "first-hit LINE events of sys.monitoring in the worker "
+           "processes; executed/executable lines per anchored file"}
+    base = os.path.join(tree.repo_root(), "src", "ZConfig")
+    for rel in files:
+        if not rel.endswith(".py"):
+            continue
+        short = rel.split("src/ZConfig/", 1)[-1]
+        total = executable_lines(os.path.join(base, short))
+        hit = set(linecov.get(short, ())) & total if total else set()
+        out[short] = {"executed": len(hit), "executable": len(total)}
+    return out
+
+
 def run_worker(prop, tier, seed, shard, nshards, out):
     from .shard import Ctx
+    cov = None
+    if os.environ.get("ZCVERIF_LINECOV", "1") != "0":
+        # started before ZConfig is imported so that module-level lines count
+        from ..mon.linecov import LineCoverage
+        cov = LineCoverage(os.path.join(tree.repo_root(), "src", "ZConfig"))
+        if not cov.start():
+            cov = None
     tree.bind()
     mod = load_check(prop)
     ctx = Ctx(prop, tier, seed, shard, nshards)
     try:
         mod.run_shard(ctx)
     finally:
+        if cov is not None:
+            cov.stop()
+            ctx.res.info["_linecov"] = cov.dump()
         ctx.cleanup()
     ctx.res.dump(out)
     return 0
